@@ -7,7 +7,7 @@ use crate::{Iri, IriRef, resolve::BaseIri};
 /// A relativizer can be used to relativize multiple IRIs against the same base.
 #[derive(Clone, Debug)]
 pub struct Relativizer<T> {
-    base: T,
+    base: BaseIri<T>,
     query_end: usize,
     path_end: usize,
     slashes: Vec<usize>,
@@ -51,8 +51,6 @@ impl<T: Deref<Target = str>> Relativizer<T> {
         } else {
             path_begin
         };
-        let base = base.into_inner();
-
         Self {
             base,
             query_end,
@@ -69,23 +67,41 @@ impl<T: Deref<Target = str>> Relativizer<T> {
 
     /// Relativize the given IRI against the base of this [`Relativizer`] if possible.
     pub fn relativize<'a>(&self, iri: Iri<&'a str>) -> Option<IriRef<Cow<'a, str>>> {
-        let lcp = longest_common_prefix(&self.base, iri.as_str());
+        // The candidate is computed on the raw strings (longest common prefix),
+        // so it is only returned if it is indeed an IRI reference resolving back to `iri`
+        // (e.g. a first segment containing ':' would be parsed as a scheme,
+        // a remainder starting with "//" as an authority,
+        // and dot segments present in `iri` would be normalized away).
+        let iri: &'a str = iri.unwrap();
+        let candidate = IriRef::new(self.candidate(iri)?).ok()?;
+        match self.base.resolve(candidate.as_str()) {
+            Ok(abs) if abs.as_str() == iri => Some(candidate),
+            _ => None,
+        }
+    }
+
+    fn candidate<'a>(&self, iri: &'a str) -> Option<Cow<'a, str>> {
+        let lcp = longest_common_prefix(&self.base, iri);
         if lcp >= self.query_end {
             // iri is identicical to base or differs in the fragment only.
             // regardless, we must include the fragment (if any) in the relative IRI.
-            Some(IriRef::new_unchecked(iri[self.query_end..].into()))
+            Some(iri[self.query_end..].into())
         } else if lcp > self.path_end {
             // both iri and base have a query and-or fragment (because lcp is *strictly* > to path_end)
             // and they differ in the query or presence thereof
             // (because if if they differed only in fragment, we would have matched above)
             // → we include query and-or fragment in the relative IRI
-            Some(IriRef::new_unchecked(iri[self.path_end..].into()))
+            Some(iri[self.path_end..].into())
         } else if lcp == self.path_end
-            && (iri.len() == self.path_end || iri[self.path_end..].starts_with(['?', '#']))
+            && (iri[self.path_end..].starts_with('?')
+                || (self.query_end == self.path_end
+                    && (iri.len() == self.path_end || iri[self.path_end..].starts_with('#'))))
         {
             // both iri and base have exactly the same path, but differ after
+            // (if base has a query and iri has none, an empty or fragment-only reference
+            // would inherit that query: the last path segment must be repeated instead)
             // → same as above
-            Some(IriRef::new_unchecked(iri[self.path_end..].into()))
+            Some(iri[self.path_end..].into())
         } else if lcp >= self.pseudoroot {
             // iri and base have similar paths
             for (nb, slash) in self.slashes.iter().copied().enumerate() {
@@ -93,17 +109,15 @@ impl<T: Deref<Target = str>> Relativizer<T> {
                     return if nb == 0 {
                         if iri.len() == slash + 1 || iri[slash + 1..].starts_with(['?', '#']) {
                             // insert ./ if there is no path element after the last slash
-                            Some(IriRef::new_unchecked(
-                                format!("./{}", &iri[slash + 1..]).into(),
-                            ))
+                            Some(format!("./{}", &iri[slash + 1..]).into())
                         } else {
-                            Some(IriRef::new_unchecked(iri[slash + 1..].into()))
+                            Some(iri[slash + 1..].into())
                         }
                     } else {
                         // insert the expected amount of '../'
                         let mut parts = vec![".."; nb + 1];
                         parts[nb] = &iri[slash + 1..];
-                        Some(IriRef::new_unchecked(parts.join("/").into()))
+                        Some(parts.join("/").into())
                     };
                 }
             }
@@ -112,17 +126,15 @@ impl<T: Deref<Target = str>> Relativizer<T> {
                     && (iri.len() == self.pseudoroot
                         || iri[self.pseudoroot..].starts_with(['?', '#']))
                 {
-                    Some(IriRef::new_unchecked(
-                        format!("./{}", &iri[self.pseudoroot..]).into(),
-                    ))
+                    Some(format!("./{}", &iri[self.pseudoroot..]).into())
                 } else {
-                    Some(IriRef::new_unchecked(iri[self.pseudoroot..].into()))
+                    Some(iri[self.pseudoroot..].into())
                 }
             } else {
                 let nb = self.slashes.len();
                 let mut parts = vec![".."; nb + 1];
                 parts[nb] = &iri[self.pseudoroot..];
-                Some(IriRef::new_unchecked(parts.join("/").into()))
+                Some(parts.join("/").into())
             }
         } else {
             // iri and base are too different to relativize
